@@ -6,7 +6,27 @@ from .encoders import encode_multipart
 from .wsgi import make_environ
 
 KINDS = ['ok', 'ok_json_accept', 'notfound', 'notfound_json', 'wrongverb', 'badpath', 'badchunk', 'oversized', 'badmultipart', 'badjson', 'crash', 'raised', 'gen', 'form',
-         'cookie_then_abort', 'head_ok']
+         'cookie_then_abort', 'head_ok', 'rex', 'typed', 'expires', 'longpath', 'longquery', 'status_str', 'status_int', 'signed', 'urlinfo', 'auth']
+
+
+_DEFAULT_ERRORS = []
+
+
+def _default_errors():
+    """(error class, status, body) of the stock errors_map, captured the first time it is needed (before any application under test exists),
+    so that later changes to the process-wide map cannot leak into reference applications."""
+    if not _DEFAULT_ERRORS:
+        import ombott
+        _DEFAULT_ERRORS.extend((k, v.status_code, v.body) for k, v in ombott.DefaultConfig.errors_map.items())
+    return _DEFAULT_ERRORS
+
+
+def custom_errors():
+    """An errors_map a user might configure: other statuses than the stock ones."""
+    import ombott
+    from ombott.request_pkg import errors as rqe
+    return {rqe.RequestError: ombott.HTTPError(422, 'custom: unprocessable'), rqe.BodySizeError: ombott.HTTPError(413, 'custom: too large'),
+            rqe.BodyParsingError: ombott.HTTPError(422, 'custom: cannot parse')}
 
 
 class Env(dict):
@@ -25,7 +45,7 @@ def make_app(probe=None, config=None, private_errors=False, app=None, foreign=No
     import ombott
     cfg = {'max_body_size': 200, 'max_memfile_size': 64}
     if private_errors:
-        cfg['errors_map'] = {k: ombott.HTTPError(v.status_code, v.body) for k, v in ombott.DefaultConfig.errors_map.items()}
+        cfg['errors_map'] = {k: ombott.HTTPError(code, body) for k, code, body in _default_errors()}
     cfg.update(config or {})
     if app is None:
         app = ombott.Ombott(cfg)
@@ -112,6 +132,50 @@ def make_app(probe=None, config=None, private_errors=False, app=None, foreign=No
             yield ' ' + rq.query.get('q', '')
         return g()
 
+    @app.route('/rx/<kind.rex((a\\d+)|(b\\d+))[1]>/x', overwrite=True)
+    def rex(kind):
+        p('rex:start')
+        rs.headers['X-Kind'] = kind
+        return 'rex %s %s' % (kind, rq.path)
+
+    @app.route('/t/<i:int>/<f:float>/<rest:path>', overwrite=True)
+    def typed(i, f, rest):
+        return 'typed %r %r %r' % (i, f, rest)
+
+    @app.route('/expires', overwrite=True)
+    def expires():
+        n = int(rq.query.get('n', '0'))
+        rs.expires = 1000000000 + n * 1000
+        rs.set_cookie('e', 'v%d' % n, expires=1100000000 + n * 777, max_age=n + 1, path='/p%d' % n)
+        rs.headers['Last-Modified'] = 'n%d' % n
+        return 'expires %d %s' % (n, rs.headers['Expires'])
+
+    @app.route('/status', overwrite=True)
+    def status():
+        how = rq.query.get('how')
+        n = rq.query.get('n', '0')
+        if how == 'str':
+            rs.status = '499 Custom phrase %s' % n
+        else:
+            rs.status = 499
+        return 'status %s' % rs.status_line
+
+    @app.route('/signed', overwrite=True)
+    def signed():
+        n = rq.query.get('n', '0')
+        secret = 'secret-%s' % (int(n) % 3)
+        got = rq.get_cookie('tok', 'absent', secret=secret)
+        rs.set_cookie('tok', ['data', n], secret=secret)
+        return 'signed %r' % (got,)
+
+    @app.route('/info/<x>', overwrite=True)
+    def info(x):
+        return 'info %s | %s | %s | %s | %s | %s' % (rq.url, rq.fullpath, rq.script_name, rq.remote_addr, rq.is_xhr, rq.content_type)
+
+    @app.route('/auth', overwrite=True)
+    def auth():
+        return 'auth %r %r' % (rq.auth, rq.remote_route)
+
     @app.route('/abort', overwrite=True)
     def ab():
         rs.set_cookie('pre', 'abort' + rq.query.get('q', ''))
@@ -156,6 +220,31 @@ def make_env(kind, n, stream_cls=Stream):
         return _e('POST', '/json', q, stream=stream_cls(data), content_length=len(data), headers={'Content-Type': 'application/json', 'Accept': 'application/json' if n % 2 else '*/*'})
     if kind == 'crash':
         return _e('GET', '/crash', q)
+    if kind == 'rex':
+        return _e('GET', '/rx/a%d/x' % n, q)
+    if kind == 'typed':
+        return _e('GET', '/t/%d/%d.5/some/path/%d' % (n - 3, n, n), q)
+    if kind == 'expires':
+        return _e('GET', '/expires', 'n=%d' % n)
+    if kind == 'longpath':
+        return _e('GET', '/missing/' + 'p' * (4000 + 97 * (n % 13)) + str(n), q)
+    if kind == 'longquery':
+        return _e('GET', '/ok', q + '&pad=' + 'q' * (3000 + 500 * (n % 7)))
+    if kind == 'status_str':
+        return _e('GET', '/status', 'how=str&n=%d' % n)
+    if kind == 'status_int':
+        return _e('GET', '/status', 'how=int&n=%d' % n)
+    if kind == 'signed':
+        import base64, hashlib, hmac, pickle
+        secret = 'secret-%d' % ((n + 1) % 3)           # a cookie signed with one of the three secrets in use (often not the one the handler expects)
+        msg = base64.b64encode(pickle.dumps(('tok', ['client', n]), -1))
+        sig = base64.b64encode(hmac.new(secret.encode(), msg, digestmod=hashlib.md5).digest())
+        return _e('GET', '/signed', 'n=%d' % n, headers={'Cookie': 'tok="!%s?%s"' % (sig.decode(), msg.decode())})
+    if kind == 'urlinfo':
+        return _e('GET', '/info/x%d' % n, q, headers={'X-Forwarded-Host': 'fh%d.example' % n, 'X-Forwarded-For': '10.0.0.%d, 10.1.1.1' % (n % 250), 'X-Requested-With': 'XMLHttpRequest'})
+    if kind == 'auth':
+        import base64
+        return _e('GET', '/auth', q, headers={'Authorization': 'Basic ' + base64.b64encode(('user%d:pw%d' % (n, n)).encode()).decode(), 'X-Forwarded-For': '10.9.8.%d' % (n % 250)})
     if kind == 'raised':
         return _e('GET', '/raised', q)
     if kind == 'gen':
